@@ -289,6 +289,10 @@ func init() {
 				specs = append(specs, TrajSpecs(r.ID, sc, 20, 4, 17, 3, 2, 256, []string{"t", "limM"}, []string{"crash", "ev:commit1"})...)
 			}
 			specs = append(specs, collEventSpecs(r, []string{"crash", "ev:commit1"}, 5, 4)...)
+			specs = append(specs,
+				Spec{Name: "crash-arr-kinds-T256", Kind: "arr-small", T: 256, L: 3, Classes: []string{"t", "limA+", "s:A:t", "A:limA-,limA-"}, Oracles: []string{"crash", "ev:commit1"}, Depth: 4},
+				Spec{Name: "crash-map-keys-T256", Kind: "map-small", T: 256, Keys: 2, Extra: map[string]int{"kLim": 1}, Classes: []string{"t", "limM+", "A:t"}, Oracles: []string{"crash", "ev:commit1"}, Depth: 4},
+			)
 		} else {
 			specs = []Spec{
 				{Name: "mixed-T256-L3", Kind: "mixed", T: 256, L: 3, Keys: 2, Classes: []string{"t", "limA+", "A", "s:M:t"}, Oracles: or, Depth: 7, Extra: map[string]int{"temp": 1}},
@@ -325,9 +329,17 @@ func init() {
 				specs = append(specs, TrajSpecs(r.ID, sc, 20, 4, 17, 3, 2, 256, []string{"t", "limM"}, or)...)
 			}
 			specs = append(specs, collEventSpecs(r, or, 2, 5)...)
+			specs = append(specs,
+				// element kinds the mixed universe does not have: wrapped / standalone children of a root array,
+				// keys at and over the key inline limit (externalised keys), nested values under such keys
+				Spec{Name: "cache-arr-kinds-T256", Kind: "arr-small", T: 256, L: 4, Classes: []string{"t", "limA+", "s:A:t", "A:limA-,limA-"}, Oracles: or, Depth: 5},
+				Spec{Name: "cache-map-keys-T256", Kind: "map-small", T: 256, Keys: 2, Extra: map[string]int{"kLim": 1}, Classes: []string{"t", "limM+", "A:t"}, Oracles: or, Depth: 5},
+			)
 		} else {
 			specs = collEventSpecs(r, or, 1, 6)
 			specs = append(specs,
+				Spec{Name: "cache-arr-kinds-T256", Kind: "arr-small", T: 256, L: 4, Classes: []string{"t", "limA+", "s:A:t", "A:limA-,limA-", "ss:A"}, Oracles: or, Depth: 7},
+				Spec{Name: "cache-map-keys-T256", Kind: "map-small", T: 256, Keys: 2, Extra: map[string]int{"kLim": 1}, Classes: []string{"t", "limM+", "A:t", "s:M:t"}, Oracles: or, Depth: 7},
 				Spec{Name: "cache-mixed-T256", Kind: "mixed", T: 256, L: 3, Keys: 2, Classes: []string{"t", "limA+", "A", "s:M:t"}, Oracles: or, Depth: 7},
 				Spec{Name: "cache-split-T256", Kind: "mixed", T: 256, L: 6, Keys: 5, Classes: []string{"limM", "t"}, Oracles: or, Depth: 8},
 				Spec{Name: "cache-compact-T256", Kind: "mixed", T: 256, L: 3, Keys: 2, Classes: []string{"Mc:t", "Mc:t,t", "t"}, Oracles: or, Depth: 7},
